@@ -54,6 +54,7 @@ type Turn struct {
 	Y int    `json:"y"`           // yields executed in the turn
 	P bool   `json:"p,omitempty"` // ended by forced pre-emption
 	S int    `json:"s,omitempty"` // site at which the task was resumed (informational)
+	Z int    `json:"z,omitempty"` // stall: virtual milliseconds the task loses after its forced pre-emption
 }
 
 // Source takes every scheduling decision.
@@ -120,6 +121,10 @@ type Sched struct {
 	LastTurnY     int
 	LastPreempted bool
 	StopFlag      atomic.Bool
+	// NextStall is set by the source when it issues a turn: if the turn ends by forced pre-emption the
+	// task sleeps that many virtual milliseconds before it parks (fault: stalled task)
+	NextStall int
+	Stalls    int
 }
 
 // Failure is a violation-grade runtime event (panic, self-deadlock ...).
@@ -237,8 +242,23 @@ func Yield(site int) {
 		}
 		s.Preempts++
 		s.turnPre = true
+		stall := 0
+		if !s.overBudget && !t.noPreempt {
+			stall = s.NextStall
+		}
+		s.NextStall = 0
 		if s.KeepTape && s.tapeOpen {
 			s.Tape[len(s.Tape)-1].P = true
+			s.Tape[len(s.Tape)-1].Z = stall
+		}
+		if stall > 0 {
+			s.Stalls++
+			s.mu.Unlock()
+			// durably blocked inside the bubble: the scheduler runs the other tasks and, when none is
+			// runnable, lets the clock advance; afterwards this goroutine is no longer the baton holder
+			time.Sleep(time.Duration(stall) * time.Millisecond)
+			s.park(t, nil, site)
+			return
 		}
 	}
 	s.mu.Unlock()
@@ -739,6 +759,7 @@ func (s *Sched) Run(horizon time.Duration, maxSteps int) string {
 				return "steps"
 			}
 			s.Steps++
+			s.NextStall = 0
 			idx, b := s.src.Next(s, ready)
 			if s.Diverged != "" {
 				return "diverged"
@@ -751,6 +772,9 @@ func (s *Sched) Run(horizon time.Duration, maxSteps int) string {
 		s.mu.Lock()
 		delete(s.parked, t)
 		s.cur = t
+		if budget < 0 || t == oracle {
+			s.NextStall = 0
+		}
 		s.budget = budget
 		s.turnY = 0
 		s.turnPre = false
